@@ -98,6 +98,7 @@ const (
 	LBody                      // a body line (schema / enum / regex): structure, not free text
 	LText                      // a description text line: its bytes are content
 	LParen                     // a line holding only ( or )
+	LTrivia                    // a comment / blank line of a recovered fixture (never produced by Render)
 )
 
 type Line struct {
